@@ -98,6 +98,7 @@ type RunConfig struct {
 	TapeTasks bool   `json:"tape_tasks,omitempty"`  // false: tasks succeed unless a fate says otherwise
 	Readers   bool   `json:"readers_inside,omitempty"`
 	PollMs    int    `json:"shutdown_poll_ms,omitempty"`
+	NoOracle  bool   `json:"no_oracle,omitempty"` // race configuration: the driver makes no calls into the runner
 	PersistCheck bool `json:"persist_check,omitempty"` // settle actions wait three persist pauses and compare store and API
 }
 
@@ -303,7 +304,7 @@ func (g gen) pipeline(name string, o genOpts) PipeS {
 		}
 	}
 	if o.retention {
-		p.RetCount = g.oneOf(0, 1, 2, 5)
+		p.RetCount = g.oneOf(0, 1, 1, 2, 5)
 		p.RetPeriodMs = g.oneOf(0, 0, 60_000, 3_600_000)
 	}
 	return p
@@ -382,6 +383,7 @@ func Generate(seed uint64, profile string, faults bool) *Scenario {
 		o.maxTasks = 2
 		o.cyclePermille = 0
 		o.maxPipes = 1
+		badVar = 40
 		mix = map[string]int{"schedule": 12, "cancel": 4}
 		opsPer = 6 + g.n(10)
 	case "C06":
@@ -450,6 +452,17 @@ func Generate(seed uint64, profile string, faults bool) *Scenario {
 		cfg.WCrash = g.oneOf(0, 0, 1)
 		o.delayPermille = 100
 		opsPer = 6 + g.n(10)
+	case "C13":
+		cfg.Store = "mem"
+		cfg.Readers = true
+		cfg.NoOracle = true
+		o.retention = true
+		mix = map[string]int{"schedule": 8, "cancel": 3, "read": 3, "list": 3, "iterate": 5, "save": 5, "reload": 2}
+		nClients = 2 + g.n(3)
+		shutdowns = g.n(2)
+		o.delayPermille = 200
+		o.delayChoice = []int{50, 300}
+		cfg.MaxSteps = 600
 	case "C16":
 		mix = map[string]int{"schedule": 10, "cancel": 2, "reload": 5}
 		o.delayPermille = 400
@@ -461,6 +474,7 @@ func Generate(seed uint64, profile string, faults bool) *Scenario {
 		cfg.TapeTasks = true
 		if profile == "C08" || profile == "C02" {
 			cfg.PFail = g.oneOf(150, 300, 450)
+			cfg.PIOErr = g.oneOf(0, 100, 200)
 		}
 		cfg.PExit0 = g.oneOf(0, cfg.PExit0, 100)
 		if g.p(300) {
